@@ -68,6 +68,9 @@ def strategy(tier):
             # how the variable signals are given: plain Signals, basic slices of one design Signal (array kinds only),
             # or Signals constructed with a pre-allocated sensitivity buffer (reset() then clears it in place)
             "var_form": draw(st.sampled_from(["signals", "signals", "slices", "prealloc", "fancy"])),
+            # some coefficients of sum c_i/x_i^q exactly zero, or zero up to round-off with the wrong sign (0.3-0.1-0.2 =
+            # -2.8e-17): gradient entries that are 0 or +1e-17-sized, which minimize_oc clips to zero
+            "czero": draw(st.sampled_from(["none", "none", "none", "zero", "roundoff"])),
             "move": draw(st.sampled_from([0.2, 0.1, 0.3, 0.5])) if conv else
             draw(st.one_of(st.sampled_from([0.2, 0.1, 0.05, 0.5, 0.01]), st.floats(0.01, 0.5))),
             "vol": draw(st.floats(0.02, 0.98)) if conv else
@@ -234,6 +237,14 @@ def build_problem(case):
     if case["obj"] != "fe":
         prob["q"] = int(case["obj"][-1])
         prob["c"] = np.exp(rng.uniform(np.log(0.2), np.log(5.0), n))
+        if case.get("czero", "none") != "none" and n >= 2:
+            rz = np.random.default_rng([case["payload_seed"], 9])
+            pick = rz.random(n) < 0.25
+            pick[int(rz.integers(0, n))] = True
+            if np.all(pick):
+                pick[0] = False
+            prob["c"][pick] = 0.0 if case["czero"] == "zero" else (0.3 - 0.1 - 0.2)
+            prob["czero"] = True
     else:
         prob["fe_load"] = rng.standard_normal(2)
     return prob
@@ -334,7 +345,9 @@ def exact_multiplier(x, g, lo, hi, T, l2init):
 def waterfill_recip(c, xmin, xmax, T):
     """argmin sum c_i/x_i s.t. sum x = T (T within [sum xmin, sum xmax]), xmin <= x <= xmax: x_i = clip(sqrt(c_i/l))."""
     def xof(l):
-        return np.clip(np.sqrt(c / l), xmin, xmax)
+        with np.errstate(all="ignore"):
+            r = np.where(c > 0, np.sqrt(c / max(l, 1e-300)), 0.0)       # c_i = 0: the variable goes to its lower bound
+        return np.clip(r, xmin, xmax)
     a, b = 1e-300, 1.0
     while np.sum(xof(b)) > T:
         b *= 4
@@ -427,9 +440,11 @@ def check_case(case, _debug=None):
                 bad("writeback:changed_without_update", f"transition {i}: design changed without a sensitivity pass")
             continue
         g = np.minimum(G[i], 0.0)
-        if np.any(G[i] >= 0):
-            labels.append("nonnegative_gradient")  # outside the quantifier; FE rounding only
+        if np.any(G[i] > 1e-15):
+            labels.append("positive_gradient")  # outside the quantifier (minimize_oc warns and clips)
             continue
+        if np.any(G[i] >= 0):
+            labels.append("zero_gradient_entries")   # exactly 0 or positive at round-off level: clipped to 0 by the code
         lo = np.maximum(xmin, x - move)
         hi = np.minimum(xmax, x + move)
         lstar, status = exact_multiplier(x, g, lo, hi, T, l2init)
@@ -490,12 +505,12 @@ def check_case(case, _debug=None):
     # ---- convergence for sum c_i / x_i
     if case["obj"] == "recip1" and "final" in log and designs[-1].shape == (n,):
         if float(np.sum(xmin)) <= T <= float(np.sum(xmax)) and prob["tolx"] == 0 and prob["tolf"] == 0:
-            xs, ls = waterfill_recip(prob["c"] * prob["scale"], xmin, xmax, T)
+            xs, ls = waterfill_recip(np.maximum(prob["c"], 0.0) * prob["scale"], xmin, xmax, T)
             # move-limited variables advance by `move` per iteration; free ones may overshoot by at most the box width
             need = (math.ceil(float(np.max(np.abs(prob["x0"] - xs))) / move)
                     + math.ceil(float(np.max(xmax - xmin)) / move) + 6)
             if _debug is not None and ls * (1 + 1e-9) + tol < l2init:
-                cs_ = prob["c"] * prob["scale"]
+                cs_ = np.maximum(prob["c"], 0.0) * prob["scale"]
                 bh = np.clip(np.sqrt(cs_ / max(ls - tol, 1e-300)), xmin, xmax)
                 bl = np.clip(np.sqrt(cs_ / (ls + tol)), xmin, xmax)
                 first = next((i_ for i_, d_ in enumerate(designs) if np.all(d_ >= bl - 1e-9) and np.all(d_ <= bh + 1e-9)), None)
@@ -509,7 +524,7 @@ def check_case(case, _debug=None):
                     and np.any((xs > xmin * (1 + 1e-6)) & (xs < xmax * (1 - 1e-6))):   # a free variable: unique multiplier
                 labels.append("convergence_claimed")
                 lo_l, hi_l = max(ls - tol, 0.0), ls + tol
-                cs = prob["c"] * prob["scale"]
+                cs = np.maximum(prob["c"], 0.0) * prob["scale"]
                 band_hi = np.clip(np.sqrt(cs / lo_l) if lo_l > 0 else np.full(n, np.inf), xmin, xmax)
                 band_lo = np.clip(np.sqrt(cs / hi_l), xmin, xmax)
                 err = np.maximum(band_lo - designs[-1], designs[-1] - band_hi)
